@@ -237,8 +237,9 @@ class Protocol:
                     )
             raise notify_msg
 
-        if msg_id not in Message.CODE.MESSAGES:
+        if msg_id not in Message.CODE.MESSAGES or msg_id == Message.CODE.NOP:
             # RFC 4271 6.1: an unrecognised Type field is Bad Message Type (1/3), as in Message.unpack
+            # (NOP is an internal code, never a message a peer can send)
             raise Notify(1, 3, 'unknown message type %d' % msg_id)
 
         if not length:
@@ -251,7 +252,8 @@ class Protocol:
         )
 
         code = 'receive-{}'.format(Message.CODE.short(msg_id))
-        self.peer.stats[code] += 1
+        # not every message type has a counter (OPERATIONAL has none): a missing one must not end the session
+        self.peer.stats[code] = self.peer.stats.get(code, 0) + 1
         for_api = self._api.get(code, False)
 
         if for_api and packets and not consolidate:
